@@ -16,6 +16,9 @@ R02.b  tables: belongs_to; class id <-> owner of the target flow; flow_index dis
 R02.c  consumer side, data_lookup_of_<U>: for each input flow, the predecessor repository, key
        function and slot index used to fetch the data are those of the (class, flow) named by a
        dep_in of that flow; the own-repo slot is the flow's own index.
+R02.e  parsec.c goal functions (mask / counter): the first input dependency whose condition holds decides a
+       data flow, a dependency is skipped only on a false condition, and the flow is satisfied at creation
+       exactly when the deciding dependency reads a data collection (the rule data_lookup follows too).
 R02.d  release_deps_of_<T>: the output entry is created before the successors are iterated with
        parsec_release_dep_fct, its usage limit is published after, the ready successors are
        scheduled last; all on the own repository / key of T.
@@ -325,4 +328,88 @@ def run(ctx):
     infos = gc.apply_records(ctx, rules, res)
     for k, v in infos.items():
         ctx.note('%s (%d): %s' % (k, len(v), '; '.join('%s %s' % x for x in v[:8])))
+    re_ = ctx.rule('R02.e', 'runtime goal functions: first applicable input dependency decides; skipped only on a false condition; satisfied at creation iff it reads local data', 6)
+    check_R02e(ctx, re_)
     gc.raise_pending(ctx)
+
+
+# ---------------------------------------------------------------------------------------
+# R02.e  runtime (parsec/parsec.c): the two goal functions decide a data flow on the FIRST input
+#        dependency whose condition holds - the same rule data_lookup uses to pick the source:
+#        a dependency is skipped only because its condition evaluated false, the loop ends after the
+#        first one that is not skipped, and the flow counts as satisfied at creation (mask: bit set,
+#        counter: not counted) exactly when that dependency reads a data collection.
+# ---------------------------------------------------------------------------------------
+def check_R02e(ctx, rule):
+    u = ctx.extract('parsec/parsec.c')
+    for fname, mode in (('parsec_check_IN_dependencies_with_mask', 'mask'), ('parsec_check_IN_dependencies_with_counter', 'counter')):
+        f = u.func(fname)
+        if f is None:
+            raise AnalysisBroken('%s not found' % fname)
+        ctx.functions_analysed.add(fname)
+        par = gc.parent_map(f)
+        loops = [n for n in f.ast_walk() if f.nodes[n]['k'] == 'for' and f.nodes[n].get('cond', -1) >= 0 and 'dep_in[' in f.expr(f.nodes[n]['cond']).s]
+        data_loops = []
+        for l in loops:
+            # the data case: not under the  ACCESS_NONE == (flags & MASK)  branch
+            ctl = False
+            for a in gc.ancestors(par, l):
+                na = f.nodes[a]
+                if na['k'] == 'if' and 'PARSEC_FLOW_ACCESS_NONE' in gc.macro_names(f, f.expr(na['cond'])):
+                    # in the then-branch?
+                    th = na.get('then')
+                    if th is not None and l in set(f.ast_walk(th)):
+                        ctl = True
+            if not ctl:
+                data_loops.append(l)
+        if not rule.expect(len(data_loops) == 1, '%s:data-loop' % mode, f.where(), '%s: expected one loop over the input dependencies of a data flow (found %d)' % (fname, len(data_loops)),
+                           note='%s: one data-flow dependency loop' % mode):
+            continue
+        l = data_loops[0]
+        body = f.nodes[l].get('body')
+        stmts = [c for c in f.ast_children(body)] if f.nodes[body]['k'] == 'compound' else [body]
+        loc = f.loc(l)
+        rule.expect(bool(stmts) and f.nodes[stmts[-1]]['k'] == 'break', '%s:first-decides' % mode, loc,
+                    '%s: the loop over the input dependencies must end (break) after the first dependency that is not skipped - later alternatives must not be consulted' % fname,
+                    note='%s: the first applicable input dependency decides' % mode)
+        conts = [n for n in f.ast_walk(body) if f.nodes[n]['k'] == 'continue']
+        okc = bool(conts)
+        for c in conts:
+            conds = []
+            for a in gc.ancestors(par, c):
+                if a == l:
+                    break
+                if f.nodes[a]['k'] == 'if':
+                    at, pol = cond_atom(f.expr(f.nodes[a]['cond']))
+                    th = f.nodes[a].get('then')
+                    in_then = th is not None and c in set(f.ast_walk(th))
+                    conds.append((at, pol if in_then else (not pol)))
+            # skipped only when the dependency has a condition and it evaluated to 0
+            ev = [(at, p) for at, p in conds if at.k == 'call' and at.extra is not None and 'cond' in at.extra.s]
+            ok1 = any((p is False) for at, p in ev)
+            okc = okc and ok1 and all((at.k == 'call' and 'cond' in (at.extra.s if at.extra is not None else '')) or at.s.endswith('->cond') for at, p in conds)
+        rule.expect(okc, '%s:skip-only-false' % mode, loc,
+                    '%s: an input dependency may be skipped only because its own condition evaluated false; skipping for any other reason lets a later (memory) alternative satisfy a flow whose real source is a task that has not run' % fname,
+                    note='%s: dependencies skipped only on a false condition' % mode)
+        # the verdict
+        sts = [n for n in f.ast_walk(body) if f.nodes[n]['k'] in ('asg', 'un') and f.expr(n).k in ('asg', 'un') and f.expr(n).ch[0].s == 'active']
+        okv = len(sts) == 1
+        if okv:
+            conds = []
+            for a in gc.ancestors(par, sts[0]):
+                if a == l:
+                    break
+                if f.nodes[a]['k'] == 'if':
+                    at, pol = cond_atom(f.expr(f.nodes[a]['cond']))
+                    th = f.nodes[a].get('then')
+                    conds.append((at, pol if (th is not None and sts[0] in set(f.ast_walk(th))) else (not pol), gc.macro_names(f, f.expr(f.nodes[a]['cond']))))
+            loc_tests = [(at, p) for at, p, mn in conds if 'PARSEC_LOCAL_DATA_TASK_CLASS_ID' in mn and 'task_class_id' in at.s]
+            def is_eq(at, p):
+                return (at.op == '==') == p
+            if mode == 'mask':
+                okv = len(loc_tests) == 1 and len(conds) == 1 and is_eq(*loc_tests[0])
+            else:
+                okv = len(loc_tests) == 1 and len(conds) == 1 and not is_eq(*loc_tests[0])
+        rule.expect(okv, '%s:verdict' % mode, loc,
+                    '%s: the flow is %s exactly when the deciding dependency %s a data collection' % (fname, 'marked satisfied' if mode == 'mask' else 'counted as pending', 'reads' if mode == 'mask' else 'does not read'),
+                    note='%s: %s iff the deciding dependency %s local data' % (mode, 'bit set' if mode == 'mask' else 'counted', 'is' if mode == 'mask' else 'is not'))
